@@ -3,9 +3,9 @@
    ascii and string stay extracted inductive datatypes.  No Extract Constant of our own. *)
 Require Extraction.
 Require ExtrOcamlBasic.
-From GG Require Registry Sched Exec.
+From GG Require Registry Sched Exec ExecSpec.
 Extraction Language OCaml.
 Extraction "model.ml"
   Registry.run Registry.a_run Registry.trace Registry.trace_okb
   Sched.exec Sched.all_done Sched.strace Sched.once_okb Sched.visible_okb
-  Exec.exec_op.
+  Exec.exec_op Exec.printed_args ExecSpec.sem_op ExecSpec.nodup_keys ExecSpec.wf_doc.
